@@ -498,7 +498,9 @@ def _atheris_job(runs_per_shard, with_corpus):
         import json as _json
         from vf.files import scratch_root
         from vf.model import from_json
-        work = os.path.join(scratch_root(), 'fuzz_%d_%d' % (os.getpid(), shard))
+        import tempfile
+        os.makedirs(scratch_root(), exist_ok=True)
+        work = tempfile.mkdtemp(prefix='fuzz_%d_%d_' % (os.getpid(), shard), dir=scratch_root())
         corpus = os.path.join(work, 'corpus')
         os.makedirs(corpus)
         if with_corpus:
